@@ -338,3 +338,42 @@ pub fn sym_arr<T: Sym, const K: usize>() -> [T; K] {
 pub fn zero_sized<T, N: ArrayLength>() -> bool {
     core::mem::size_of::<T>() == 0 || N::USIZE == 0
 }
+
+// ---------------------------------------------------------------------------------------------
+// formatting without format!: a recording sink and a token element type
+// ---------------------------------------------------------------------------------------------
+pub const SINKCAP: usize = 96;
+pub struct Sink {
+    pub buf: [u8; SINKCAP],
+    pub len: usize,
+    pub calls: usize,
+}
+impl Sink {
+    pub fn new() -> Sink {
+        Sink { buf: [0; SINKCAP], len: 0, calls: 0 }
+    }
+}
+impl core::fmt::Write for Sink {
+    fn write_str(&mut self, s: &str) -> core::fmt::Result {
+        let b = s.as_bytes();
+        assert!(self.len + b.len() <= SINKCAP, "sink overflow");
+        self.buf[self.len..self.len + b.len()].copy_from_slice(b);
+        self.len += b.len();
+        self.calls += 1;
+        Ok(())
+    }
+}
+/// element whose Debug output is two bytes: `#` and a letter derived from its id (no integer formatting loops)
+#[derive(Clone, Copy, PartialEq, Eq)]
+pub struct Tok(pub u8);
+impl core::fmt::Debug for Tok {
+    fn fmt(&self, f: &mut core::fmt::Formatter<'_>) -> core::fmt::Result {
+        // a few static tokens: no str slicing at a symbolic index, no integer formatting loops
+        f.write_str(match self.0 & 3 {
+            0 => "#a",
+            1 => "#b",
+            2 => "#c",
+            _ => "#d",
+        })
+    }
+}
